@@ -340,7 +340,36 @@ def addr_predicate(args, res):
     return res == eff + "/" + (eff if stateful else "-")
 
 
-PREDICATES = dict(addr=addr_predicate, rpq=rpq_predicate, merge=merge_predicate, lo=lo_predicate, of=of_predicate, md=md_predicate, rp=rp_predicate,
+def fan_predicate(args, res):
+    """Fan-out / merge APIs (ListGroups, DescribeGroups, DescribeConfigs): NO SILENT DROP — when a
+    sub-response was lost the call returns an error, or the result marks every affected part with
+    an error (item 'label/<non-zero code>/...'); never a shorter list with a nil error.  Healthy
+    parts report exactly their brokers' answers."""
+    api, parts = args.split(" ")
+    if "SLOW" in res:
+        return False
+    failed, want = [], []
+    for p in parts.split(","):
+        label, items = p.split(":")
+        if items == "F":
+            failed.append(label)
+        elif items != ".":
+            want += items.split("+")
+    if res == "ERR":
+        return bool(failed)
+    if not res.startswith("OK:"):
+        return False
+    got = [] if res[3:] == "." else res[3:].split("+")
+    marked = []
+    for label in failed:
+        m = [g for g in got if g.split("/")[0] == label and len(g.split("/")) > 1 and g.split("/")[1] != "0"]
+        if not m:
+            return False          # a lost part neither failed the call nor is marked with an error
+        marked += m
+    return sorted(g for g in got if g not in marked) == sorted(want)
+
+
+PREDICATES = dict(fan=fan_predicate, addr=addr_predicate, rpq=rpq_predicate, merge=merge_predicate, lo=lo_predicate, of=of_predicate, md=md_predicate, rp=rp_predicate,
                   seek=seek_predicate)
 
 
@@ -381,6 +410,13 @@ def correspondence(ctx):
     if rc != 0:
         raise L.Fail("correspondence", "harness cmd/c19 crashed (panic in a query method?)", (out[-1500:] + err[-2500:]))
     texts.append(out)
+    # the cut-response families hosted for C17 (ListOffsets sub-responses and the fan-out mergers
+    # ListGroups / DescribeGroups / DescribeConfigs), thinly sampled: they tie concat_merge /
+    # listgroups_merge of the model to the code in C19's own run as well
+    rc, out2, err2, _ = L.sh([gobin, "-seed", str(ctx.seed), "-subset", "cut", "-cutstride", str(ctx.scale(5, 1))], timeout=600)
+    if rc != 0:
+        raise L.Fail("correspondence", "harness cmd/c19 -subset cut crashed", (out2[-1500:] + err2[-2500:]))
+    texts.append("\n".join(l for l in out2.splitlines() if " cutof " not in l) + "\n")
     cases = []
     for t in texts:
         for c in L.parse_cases(t):
@@ -402,7 +438,7 @@ def correspondence(ctx):
         op = c["op"]
         ok = True
         try:
-            if c["go"] in ("ERR", "NOREQUEST") or "BAD" in c["go"]:
+            if op != "fan" and (c["go"] in ("ERR", "NOREQUEST") or "BAD" in c["go"]):
                 ok = False
             elif op in PREDICATES:
                 ok = PREDICATES[op](c["args"], c["go"])
@@ -448,6 +484,17 @@ def correspondence(ctx):
     ops = {}
     for c in cases:
         ops[c["op"]] = ops.get(c["op"], 0) + 1
+    # queries after a broker was re-registered under its id at a new address (checks/c12.py moved_broker_cases)
+    try:
+        import importlib
+        mb = importlib.import_module("checks.c12").moved_broker_cases(ctx)
+        failures += mb.get("failures", [])
+        ev += mb.get("evaluations", 0)
+        dn += mb.get("distinct_nontrivial", 0)
+        hist.update(mb.get("hist", {}))
+        ops["moved-broker (hosted from C12)"] = mb.get("evaluations", 0)
+    except (ModuleNotFoundError, AttributeError):
+        pass
     return dict(evaluations=ev, distinct_nontrivial=dn, hist=hist,
                 extra=dict(cases_per_op=ops),
                 rule="cases from one PRNG (VERIF_SEED). Tier 1: listoffsets Split/Merge called directly on requests with 0..5 topics (names repeated, empty, non-ASCII), "
@@ -526,6 +573,12 @@ def listoffsets_cut_cases(ctx):
     deadline; the following call works (fresh connections) and reports every owner's answer.  The
     ListOffsets cases are also compared with the extracted model (failed sub-request -> Merge's
     placeholder -> error on that partition, Model/Queries.v split_round_trip / listoffsets_client).
+    The same for the other fan-out / merge APIs of the Transport (every protocol.Merger of /repo/protocol):
+    Client.ListGroups (one request per broker), Client.DescribeGroups (one per group, to its
+    coordinator), Client.DescribeConfigs (one per broker resource): one or two brokers' responses cut
+    at byte k; predicate NO SILENT DROP (fan_predicate): the call returns an error or marks every
+    affected part with an error — never a shorter list with a nil error; compared with the model's
+    concat_merge / listgroups_merge (theorems C19_fanout_no_silent_drop, C19_listgroups_no_silent_drop).
     Client.Metadata is not cut here: the Transport serves it from its cache, a cut metadata response
     is the pool's refresh path (C12)."""
     gobin = L.go_build("c19")
@@ -539,7 +592,8 @@ def listoffsets_cut_cases(ctx):
         c["id"] = str(i + 1)
         c["line"] = c["id"] + " " + c["op"] + " " + c["args"]
     lo = [c for c in cases if c["op"] == "lo"]
-    res = L.run_model(model, "\n".join(c["line"] for c in lo) + "\n") if lo else {}
+    withmodel = [c for c in cases if c["op"] in ("lo", "fan")]
+    res = L.run_model(model, "\n".join(c["line"] for c in withmodel) + "\n") if withmodel else {}
     failures, hist, nontrivial = [], {}, set()
 
     def fail(c, what):
@@ -552,7 +606,8 @@ def listoffsets_cut_cases(ctx):
     for c in cases:
         fs = c["feats"].split(",")
         region = next((f for f in fs if f.startswith("cut=") or f in ("not-cut", "after-cut", "cut")), "?")
-        hist[("listoffsets-cut:" if c["op"] == "lo" else "offsetfetch-cut:") + region] = hist.get(("listoffsets-cut:" if c["op"] == "lo" else "offsetfetch-cut:") + region, 0) + 1
+        fam = "listoffsets-cut:" if c["op"] == "lo" else "offsetfetch-cut:" if c["op"] == "cutof" else next((f[4:].lower() for f in fs if f.startswith("api=")), "fan") + "-cut:"
+        hist[fam + region] = hist.get(fam + region, 0) + 1
         if region not in ("not-cut",):
             nontrivial.add(c["op"] + " " + c["args"])
         if c["op"] == "lo":
@@ -580,6 +635,31 @@ def listoffsets_cut_cases(ctx):
             elif res.get(c["id"]) != go:
                 failures.append(dict(layer="correspondence", what="C17 ListOffsets after a cut sub-response: model and code differ although the result satisfies the predicate",
                                      detail=json.dumps(dict(case=c["line"][:1200], go=go[:500], model=str(res.get(c["id"]))[:500])), input=None))
+        elif c["op"] == "fan":
+            api = c["args"].split(" ")[0]
+            k = next((f for f in fs if f.startswith("k=")), "k=?")[2:]
+            where = ("the call following a cut (byte %s)" % k) if "after-cut" in fs else ("sub-response(s) cut at byte %s" % k)
+            go = c["go"]
+            nparts = len(c["args"].split(" ")[1].split(","))
+            ncut = sum(p.endswith(":F") for p in c["args"].split(" ")[1].split(","))
+            try:
+                ok = fan_predicate(c["args"], go)
+            except Exception:
+                ok = False
+            if "SLOW" in go:
+                fail(c, f"C17 {api} after a cut sub-response: the call took more than 2 s of its 5 s deadline ({where})")
+            elif not ok:
+                if ncut and go.startswith("OK:"):
+                    what = (f"the call returned a nil error and the answers of {nparts - ncut} of {nparts} brokers/parts only — the part whose response was cut "
+                            "is silently dropped (partial data presented as complete)")
+                elif not ncut and go == "ERR":
+                    what = "the call failed although every sub-request was answered in full"
+                else:
+                    what = "the healthy parts do not report their brokers' answers"
+                fail(c, f"C17 {api} after a cut sub-response: {what} ({where})")
+            elif res.get(c["id"]) != go:
+                failures.append(dict(layer="correspondence", what=f"C17 {api} after a cut sub-response: model (Merge over the outcomes) and code differ although the result satisfies the predicate",
+                                     detail=json.dumps(dict(case=c["line"][:1200], go=go[:500], model=str(res.get(c["id"]))[:500])), input=None))
         elif c["op"] == "cutof":
             k, frame = (hz(x) for x in c["args"].split(" "))
             first, follow = (x.split("=", 1)[1] for x in c["go"].split(" "))
@@ -594,6 +674,9 @@ def listoffsets_cut_cases(ctx):
     for need in ("cut=size-prefix", "cut=correlation-id", "cut=topic-name", "cut=partition-id-and-error", "cut=timestamp-and-offset", "after-cut"):
         if not any(need in c["feats"].split(",") for c in lo):
             failures.append(dict(layer="correspondence", what=f"C17 ListOffsets after a cut sub-response: no case with {need} was run", detail="", input=None))
+    for api in ("ListGroups", "DescribeGroups", "DescribeConfigs"):
+        if not any(c["op"] == "fan" and {"api=" + api, "cut", "some-failed"} <= set(c["feats"].split(",")) for c in cases):
+            failures.append(dict(layer="correspondence", what=f"C17 {api} after a cut sub-response: no case with a cut sub-response next to a healthy one", detail="", input=None))
     if not any("some-failed" in c["feats"] and "after-cut" not in c["feats"] for c in lo):
         failures.append(dict(layer="correspondence", what="C17 ListOffsets after a cut sub-response: no case with a cut sub-response next to a healthy one", detail="", input=None))
     return dict(evaluations=len(cases), distinct_nontrivial=len(nontrivial), hist=hist, failures=failures,
